@@ -105,6 +105,43 @@ class _Canon(ast.NodeTransformer):
 
     _FLIP = {ast.Eq: ast.NotEq, ast.NotEq: ast.Eq, ast.In: ast.NotIn, ast.NotIn: ast.In, ast.Is: ast.IsNot, ast.IsNot: ast.Is}
 
+    _MIRROR = {ast.Lt: ast.Gt, ast.Gt: ast.Lt, ast.LtE: ast.GtE, ast.GtE: ast.LtE, ast.Eq: ast.Eq, ast.NotEq: ast.NotEq}
+
+    @staticmethod
+    def _constant_like(e: ast.AST) -> bool:
+        if isinstance(e, ast.Constant):
+            return True
+        if isinstance(e, ast.UnaryOp) and isinstance(e.operand, ast.Constant):
+            return True
+        if isinstance(e, ast.Name):
+            return e.id.isupper()
+        if isinstance(e, ast.Attribute):
+            b = e
+            while isinstance(b, ast.Attribute):
+                b = b.value
+            return isinstance(b, ast.Name) and (b.id[:1].isupper() or b.id == "math") and b.id not in ("self",)
+        if isinstance(e, ast.Call) and isinstance(e.func, ast.Name) and e.func.id == "float" and e.args and isinstance(e.args[0], ast.Constant):
+            return True
+        return False
+
+    def visit_Compare(self, n: ast.Compare):
+        self.generic_visit(n)
+        # one spelling per comparison: a constant-like operand (literal, ALL_CAPS name, enum member) stands on the right;
+        # otherwise order comparisons point "upwards" (`<`, `<=`) and (in)equalities put the textually smaller operand first
+        if len(n.ops) == 1 and type(n.ops[0]) in self._MIRROR:
+            l, r = n.left, n.comparators[0]
+            cl, cr = self._constant_like(l), self._constant_like(r)
+            swap = False
+            if cl != cr:
+                swap = cl
+            elif isinstance(n.ops[0], (ast.Gt, ast.GtE)):
+                swap = not cl            # both constant-like: leave as written
+            elif isinstance(n.ops[0], (ast.Eq, ast.NotEq)):
+                swap = ast.unparse(l) > ast.unparse(r)
+            if swap:
+                n.left, n.comparators, n.ops = r, [l], [self._MIRROR[type(n.ops[0])]()]
+        return n
+
     def visit_UnaryOp(self, n: ast.UnaryOp):
         self.generic_visit(n)
         if not isinstance(n.op, ast.Not):
